@@ -200,10 +200,7 @@ func (w *World) mutateConfig(latest raft.VConfig) raft.VConfig {
 	return c
 }
 
-var payloadSeq int
-
 func (w *World) payload() string {
-	payloadSeq++
 	n := 1 + w.Rng.Intn(40)
 	if w.chance(15) {
 		n = 100 + w.Rng.Intn(200)
@@ -599,6 +596,33 @@ func (w *World) genReplUpdates(d *raft.VNode) (Op, bool) {
 	return op, len(op.Updates) > 0
 }
 
+// genInner: an event of the state loop that may fall between the capture of the FSM state by the snapshot
+// goroutine and the writing of the snapshot file.
+func (w *World) genInner(d *raft.VNode) (Op, bool) {
+	switch d.Role {
+	case "leader":
+		switch r := w.Rng.Intn(100); {
+		case r < 45:
+			return w.genBatch(), true
+		case r < 75:
+			return w.genReplUpdates(d)
+		case r < 85:
+			return w.genAppend(d), true
+		default:
+			return w.genInstall(d), true
+		}
+	default:
+		switch r := w.Rng.Intn(100); {
+		case r < 55:
+			return w.genAppend(d), true
+		case r < 85:
+			return w.genInstall(d), true
+		default:
+			return w.genVote(d), true
+		}
+	}
+}
+
 // GenOp draws the next operation given the node's current state.
 func (w *World) GenOp() Op {
 	if len(w.Trail) == 0 {
@@ -634,6 +658,13 @@ func (w *World) GenOp() Op {
 		return Op{Kind: "snapTaken"}
 	}
 	if d.SnapPending != nil && w.chance(50) {
+		if w.chance(35) && !w.Dirty {
+			// the snapshot goroutine holds the FSM's state; before it writes the file the state loop handles
+			// one more event (the interleaving the atomic snapRun of the model stands for)
+			if in, ok := w.genInner(&d); ok && !in.Adv {
+				return Op{Kind: "snapAround", Inner: &in}
+			}
+		}
 		return Op{Kind: "snapRun"}
 	}
 	if !boot {
